@@ -8,7 +8,7 @@ cd /verif
 if [ ! -d $S ]; then git -C /repo worktree add --detach $S HEAD -q; fi
 git -C $S checkout -q --detach $(git -C /repo rev-parse HEAD) 2>/dev/null; git -C $S checkout -q -- .
 git -C $S apply $wt/verif_seed/$l/patch.diff 2>/dev/null || git -C $S apply -3 $wt/verif_seed/$l/patch.diff || { echo "apply failed"; exit 2; }
-VERIF_REPO=$S VERIF_BUILD=/tmp/vb-seed ./check $p $tier > /tmp/try_seed.log 2>&1; rc=$?
+VERIF_REPO=$S VERIF_BUILD=/tmp/vb-seed VERIF_OUT=/tmp/vb-seed/out ./check $p $tier > /tmp/try_seed.log 2>&1; rc=$?
 git -C $S checkout -q -- .
 grep -v KNOWN-FINDING /tmp/try_seed.log | grep -A1 "^VIOLATION\|HARNESS-ERROR" | head -6 | cut -c1-300
 echo "SEED $(basename $wt)-$l on $p $tier: exit=$rc"
